@@ -345,6 +345,110 @@ def trace_analyse(rng: random.Random, n_ops: int) -> Optional[Dict[str, Any]]:
     return {"kind": "analyse", "same_out": bool(same_out), "same_grad": bool(same_grad), "nodes": nodes, "code": gm.code}
 
 
+# ---------------------------------------------------------------------- growth item: the text of analyse_module
+class _AnnMod(nn.Module):
+    """Unit-scaled functions (wrap(...) preamble lines), a non-float intermediate, two inputs of which one gets no gradient."""
+
+    def __init__(self, v: int):
+        super().__init__()
+        import unit_scaling as uu
+
+        self.v = v
+        self.l = uu.Linear(8, 8, bias=(v % 2 == 0))
+        self.n = nn.LayerNorm(8)
+
+    def forward(self, x, y):
+        import unit_scaling.functional as U
+
+        h = self.l(x)
+        h = U.gelu(h) + y if self.v % 3 else U.silu(h) * y
+        i = h.size(0)
+        h = h.reshape(i, 8)
+        return self.n(h).square().sum()
+
+
+def abstract_lines(code: str) -> List[Dict[str, Any]]:
+    import ast
+    import re
+
+    out = []
+    for line in code.splitlines():
+        st = line.strip()
+        if line.startswith("torch.fx._symbolic_trace.wrap"):
+            out.append({"k": "wrap", "name": "", "args": [], "head": "wrap"})
+        elif not st:
+            out.append({"k": "blank", "name": "", "args": [], "head": ""})
+        elif st.startswith("def "):
+            fn = ast.parse(st + "\n    ...").body[0]
+            out.append({"k": "def", "name": "", "args": [a.arg for a in fn.args.args], "head": "def"})  # type: ignore[attr-defined]
+        elif re.match(r"^[A-Za-z_][A-Za-z0-9_]* = ", st):
+            out.append({"k": "assign", "name": st.split(" ")[0], "args": [], "head": st.split(" ")[0]})
+        else:
+            out.append({"k": "other", "name": "", "args": [], "head": st.split(" ")[0]})
+    return out
+
+
+def annotate_cases(rep: Report, rng: random.Random, n: int) -> None:
+    """spec/Annotate.tla: which line of analyse_module's text carries which recorded scale (BEYOND the listed properties:
+    disagreements are reported with rep.beyond, never as a C18 violation)."""
+    import re
+
+    from unit_scaling.utils import _annotate, _DeepTracer, _record_scales, analyse_module
+
+    cases, texts, labels = [], [], []
+    for i in range(n):
+        if i % 4 == 0:
+            torch.manual_seed(i)
+            mod: nn.Module = _AnnMod(i // 4)
+            ins: Tuple[torch.Tensor, ...] = (torch.randn(4, 8).requires_grad_(), torch.randn(4, 8))
+            bwd = None
+            label = f"_AnnMod({i // 4})"
+        else:
+            b = fxgen.Builder(random.Random(rng.randrange(1 << 30)), 1)
+            for _ in range(rng.randint(1, 6)):
+                b.add_op([v for v in fxgen.TRACK_VOCAB if v != "detach_branch"])
+            mod = b.finish(1)
+            ins = (fxgen.int_inputs(rng, 1)[0].requires_grad_(),)
+            bwd = (torch.ones(fxgen.SHAPE),)
+            label = "random graph"
+        try:
+            tr = _DeepTracer()
+            graph = tr.trace(mod)
+            gmod = fx.GraphModule(tr.root, graph)
+            run_in = tuple(t.detach().clone().requires_grad_(t.requires_grad) for t in ins)
+            tracking = __import__("unit_scaling.utils", fromlist=["ScaleTrackingInterpreter"]).ScaleTrackingInterpreter(gmod)
+            out = tracking.run(*run_in)
+            out = out[0] if isinstance(out, tuple) else out
+            out.backward(bwd[0] if bwd else None)
+            scales = tracking.scales
+            text = _annotate(gmod.code, scales, False)
+            public = analyse_module(mod, tuple(t.detach().clone().requires_grad_(t.requires_grad) for t in ins) if len(ins) > 1 else ins[0].detach().clone().requires_grad_(), bwd[0] if bwd else None, syntax_highlight=False) if label != "random graph" else None
+        except Exception as ex:
+            rep.beyond(f"analyse_module pipeline raised {type(ex).__name__}: {str(ex)[:120]} on {label}")
+            continue
+        lines = abstract_lines(gmod.code)
+        cases.append({"lines": [{k: l[k] for k in ("k", "name", "args")} for l in lines], "scales": [[k, str(v)] for k, v in scales.items()]})
+        texts.append((lines, text, public))
+        labels.append(label)
+        rep.case(("annotate", i), nontrivial=True)
+    if not cases:
+        return
+    ev = common.tlc_eval("Annotate_Eval", "Annotate_Eval.cfg", cases, tag="anneval", timeout=600)
+    rep.states += ev["states"]
+    rep.transitions += ev["transitions"]
+    for (lines, text, public), e, label in zip(texts, ev["out"], labels):
+        if not (e["tracked"] and e["nothing_else"]):
+            raise common.MachineryError("Annotate_Eval: spec-internal property fails")
+        exp = [[lines[o["src"] - 1]["head"], list(o["anns"])] for o in e["out"]]
+        obs = [[ln.strip().split(" ")[0], re.findall(r"\(-> [^()]*\)", ln.split(";  ")[-1] if ";  " in ln else (ln.split(":  ")[-1] if ln.strip().startswith("def ") and ":  " in ln else ""))] for ln in text.splitlines()]
+        if obs != exp:
+            k = next((j for j in range(min(len(obs), len(exp))) if obs[j] != exp[j]), min(len(obs), len(exp)))
+            rep.beyond(f"utils._annotate ({label}): line {k}: text has {obs[k] if k < len(obs) else None}, spec Annotate.tla expects {exp[k] if k < len(exp) else None}")
+        if public is not None and [re.sub(r"\(->[^()]*\)", "", a) for a in public.splitlines()] != [re.sub(r"\(->[^()]*\)", "", a) for a in text.splitlines()]:
+            rep.beyond(f"analyse_module ({label}) does not return _annotate(traced code, recorded scales)")
+    rep.extra["annotate_cases"] = len(cases)
+
+
 HIST = [("all",), ("all",), ("all", "none"), ("all", "first"), ("none", "all", "none"), ("first", "all")]
 
 
@@ -415,6 +519,10 @@ def run(rep: Report, tier: str) -> None:
             continue
         traces += ts
         rep.case((gen[0], i), nontrivial=len(ts[0]["nodes"]) >= 4)
+    res_a = common.run_tlc("Annotate_MC", "Annotate_MC.cfg", timeout=300, tag="annmc")
+    common.tlc_must_pass(res_a, "Annotate_MC")
+    rep.add_tlc(res_a, with_cov=False)
+    annotate_cases(rep, rng, 16 if quick else 200)
     rep.extra["graphs_skipped_values_out_of_exact_range"] = skipped
     judge(rep, traces)
     rep.rule = "random module graphs with 1-7 ops (direct backend), analyse_module's interpreter, and a module family through TorchDynamo; integer-valued inputs with zeros; graphs whose intermediate values leave the exactly representable range (|v| > 64) are skipped; non-trivial = at least 4 nodes"
